@@ -28,7 +28,7 @@ ALN = 'xdoctest.utils.util_str.add_line_numbers'
 
 
 def run(ctx):
-    for fn in (r1_numbering, r2_lines_once):
+    for fn in (r1_numbering, r2_lines_once, r2b_want_text_unmodified, r3_formatting_is_read_only, r4_file_relative_start):
         ctx.rep.rule(fn, ctx)
 
 
@@ -159,12 +159,144 @@ def r2_lines_once(ctx):
 
 
 # ---------------------------------------------------------------------------
+def r4_file_relative_start(ctx):
+    """file-relative numbers are DocTest.lineno + ...: the freeform offset accumulation that produces lineno (same clause as C08.R4)"""
+    from . import c08
+    from .common import run_as
+    run_as(ctx, c08.r4_freeform_offset, 'C08.R4', 'C18.R4')
+
+
+def r2b_want_text_unmodified(ctx):
+    """the want lines shown are the want lines of the part: the text that is split into lines flows from self.want
+    without any rewriting step (strip, replace, slicing ...) -- leading blanks of a want line are significant"""
+    rep = ctx.rep
+    f = ctx.func(FP)
+    g = ctx.cfg(f)
+    rd = ctx.rd(f)
+    recv = f.node.args.args[0].arg
+    heads = [n for n in g.nodes if n.kind == 'for' and not n.dup and isinstance(n.ast.iter, ast.Call) and isinstance(n.ast.iter.func, ast.Attribute) and n.ast.iter.func.attr == 'splitlines'
+             and any(isinstance(c.func, ast.Attribute) and c.func.attr == 'append' and is_name(c.func.value, 'want_lines') for s_ in n.ast.body for c in ast.walk(s_) if isinstance(c, ast.Call))]
+    rep.floor('C18.R2b', 'loops over the want lines', len(heads), 1)
+    for h in heads:
+        init = [n for n in g.nodes if n.kind == 'for_init' and n.stmt is h.ast][0]
+        subj = h.ast.iter.func.value
+        bad = []
+
+        def walk(node, e, depth=0):
+            if depth > 6:
+                bad.append('derivation too deep')
+                return
+            if isinstance(e, ast.Attribute) and is_name(e.value, recv) and e.attr == 'want':
+                return
+            if isinstance(e, ast.Constant) and e.value == '':
+                return
+            if isinstance(e, ast.IfExp):
+                walk(node, e.body, depth + 1)
+                walk(node, e.orelse, depth + 1)
+                return
+            if isinstance(e, ast.BoolOp) and isinstance(e.op, ast.Or):
+                for v in e.values:
+                    walk(node, v, depth + 1)
+                return
+            if isinstance(e, ast.Name):
+                ds = rd.at(node, e.id)
+                if not ds:
+                    bad.append('%s has no definition' % e.id)
+                for d in ds:
+                    if d.kind == 'assign' and isinstance(d.value, ast.AST):
+                        walk(d.node, d.value, depth + 1)
+                    else:
+                        bad.append('%s defined by %s' % (e.id, d.kind))
+                return
+            bad.append(ctx.src(e, 60))
+        walk(init, subj)
+        rep.ob('C18.R2b', ctx.loc(f, h.ast), 'want lines <- %s' % ctx.src(h.ast.iter), not bad,
+               'the lines are those of self.want, unmodified' if not bad else
+               'the want text is rewritten before it is displayed (%s): a displayed want line differs from the want line of the doctest' % '; '.join(bad), anchor=FP)
+        # the line itself goes through the indentation format only
+        for n in g.nodes:
+            if n.dup or not graph.in_loop_body(n, h.ast):
+                continue
+            for c in node_calls(n):
+                if isinstance(c.func, ast.Attribute) and c.func.attr == 'append' and is_name(c.func.value, 'want_lines') and c.args:
+                    a = c.args[0]
+                    lv = h.ast.target.id if isinstance(h.ast.target, ast.Name) else None
+                    ok = is_name(a, lv) or (isinstance(a, ast.Call) and isinstance(a.func, ast.Attribute) and a.func.attr == 'format' and is_name(a.func.value, 'want_fmt') and
+                                            len(a.keywords) == 1 and is_name(a.keywords[0].value, lv) and not a.args)
+                    rep.ob('C18.R2b', ctx.loc(f, c), ctx.src(c), ok, 'the line is emitted as it is (after the alignment blanks)' if ok else 'the emitted want line is not the line itself', nontrivial=False, anchor=FP)
+
+
+def r3_formatting_is_read_only(ctx):
+    """displaying a part never changes it: format_part stores to no field of the part and mutates no list that may alias one
+    (a later run / format / dump of the same DocTest would otherwise see wants mixed into the executable lines)"""
+    rep = ctx.rep
+    f = ctx.func(FP)
+    g = ctx.cfg(f)
+    rd = ctx.rd(f)
+    recv = f.node.args.args[0].arg
+    n_checked = 0
+    MUT = ('append', 'extend', 'insert', 'remove', 'pop', 'clear', 'sort', 'reverse')
+
+    def may_alias_field(node, name, depth=0):
+        """field texts the local may alias (assigned from self.<attr> without a copy)"""
+        out = set()
+        if depth > 4:
+            return out
+        for d in rd.at(node, name):
+            v = d.value
+            if d.kind != 'assign' or not isinstance(v, ast.AST):
+                continue
+            for alt in ([v.body, v.orelse] if isinstance(v, ast.IfExp) else ([*v.values] if isinstance(v, ast.BoolOp) else [v])):
+                if isinstance(alt, ast.Attribute) and is_name(alt.value, recv):
+                    out.add(recv + '.' + alt.attr)
+                elif isinstance(alt, ast.Name):
+                    out |= may_alias_field(d.node, alt.id, depth + 1)
+        return out
+    for n in g.nodes:
+        if n.kind != 'stmt' or n.dup:
+            continue
+        st = n.ast
+        targets = []
+        if isinstance(st, ast.Assign):
+            targets = st.targets
+        elif isinstance(st, (ast.AugAssign, ast.AnnAssign)):
+            targets = [st.target]
+        for t in targets:
+            for tt in ([t] if not isinstance(t, (ast.Tuple, ast.List)) else t.elts):
+                base = tt.value if isinstance(tt, ast.Subscript) else tt
+                if isinstance(base, ast.Attribute) and is_name(base.value, recv):
+                    n_checked += 1
+                    rep.ob('C18.R3', ctx.loc(f, st), ctx.src(st), False, 'format_part writes the field %s.%s of the part it displays' % (recv, base.attr), anchor=FP)
+                elif isinstance(st, ast.AugAssign) and isinstance(tt, ast.Name):
+                    al = may_alias_field(n, tt.id)
+                    n_checked += 1
+                    rep.ob('C18.R3', ctx.loc(f, st), ctx.src(st), not al,
+                           'the augmented local is a fresh object' if not al else
+                           '`%s` may be the list object %s itself (assigned without a copy): the in-place %s changes the part that is being displayed' % (tt.id, sorted(al), ctx.src(st)), anchor=FP)
+        for c in node_calls(n):
+            if isinstance(c.func, ast.Attribute) and c.func.attr in MUT:
+                b = c.func.value
+                if isinstance(b, ast.Attribute) and is_name(b.value, recv):
+                    n_checked += 1
+                    rep.ob('C18.R3', ctx.loc(f, c), ctx.src(c), False, 'format_part mutates the field %s.%s' % (recv, b.attr), anchor=FP)
+                elif isinstance(b, ast.Name):
+                    al = may_alias_field(n, b.id)
+                    n_checked += 1
+                    rep.ob('C18.R3', ctx.loc(f, c), ctx.src(c), not al, 'the mutated local is a fresh list' if not al else
+                           '`%s` may be the list object %s itself: %s changes the part that is being displayed' % (b.id, sorted(al), ctx.src(c)), nontrivial=bool(al), anchor=FP)
+    rep.note('read_only_sites_checked', n_checked)
+
+
+# ---------------------------------------------------------------------------
 from ..selftest import fire, silent      # noqa: E402
 
 DE = 'xdoctest/doctest_example.py'
 DP = 'xdoctest/doctest_part.py'
 US = 'xdoctest/utils/util_str.py'
 VARIANTS = [
+    fire('want-text-stripped', 'C18.R2b', (DP, "        want_text = self.want if self.want else ''\n", "        want_text = (self.want or '').strip()\n")),
+    fire('want-lines-appended-into-exec-lines', 'C18.R3', (DP, "        part_lines = src_text.splitlines()\n", "        part_lines = src_text.splitlines() if prefix else self.exec_lines\n"), (DP, "        part_text = '\\n'.join(part_lines)\n", "        part_lines += want_lines\n        part_text = '\\n'.join(part_lines)\n")),
+    silent('want-text-or-form', (DP, "        want_text = self.want if self.want else ''\n", "        want_text = self.want or ''\n")),
     fire('numbering-ignores-part-offset', 'C18.R1', (DP, "            start = startline + self.line_offset\n", "            start = startline\n")),
     fire('numbering-off-by-one', 'C18.R1', (DP, "            start = startline + self.line_offset\n", "            start = startline + self.line_offset + 1\n")),
     fire('file-relative-starts-at-one', 'C18.R1', (DE, "            if offset_linenos:\n                startline = self.lineno\n", "            if offset_linenos:\n                startline = 1\n")),
